@@ -3432,7 +3432,7 @@ class NetCDFWrite(IOWrite):
                 continue
 
             x = self.implementation.get_property(
-                coord, "computed_standard_name", None
+                field_coordinates[key], "computed_standard_name", None
             )
             if x is None:
                 self.implementation.set_properties(
